@@ -55,6 +55,9 @@ def run(ctx, dn):
         # some adds go through the bulk entry point with the documented (u, v, d) form, d carrying a stale 't'
         prog = [("addfrom", [(op[1], op[2], {"t": [[0, 1]]} if ctx.rng.random() < 0.5 else {"w": 1})], op[3], op[4])
                 if (op[0] == "add" and op[3] is not None and ctx.rng.random() < 0.15) else op for op in prog]
+        # whatever vanishing time is supplied is ignored in this mode, also one that is not after t
+        prog = [(op[0], op[1], op[2], op[3], op[3] - ctx.rng.choice((0, 1, 3)))
+                if (op[0] == "add" and op[3] is not None and ctx.rng.random() < 0.12) else op for op in prog]
         # bunches that yield no pair, at instants where nothing else happens
         for _ in range(ctx.rng.choice((0, 0, 1, 2))):
             tt = ctx.rng.randint(-3, 30)
